@@ -2,6 +2,10 @@
    byte for byte (text = list of code points).
    ts, eqa, sel: the source transaction set, the configured equity account and selectors (as in
    C10_corr); md: the metadata items as rendered by the implementation (cut out of its own text);
+   warn: the texts of the comment lines the implementation writes after the metadata block of a
+   transaction (cut out of its own text: the first non-empty such block; [] when there is none) -
+   the model writes them back under exactly the headers whose sum is zero, so a block observed
+   where the sum is not zero, or two different blocks, make the texts differ;
    text: the implementation's export.
    Result: bit 1 = model text = implementation text; bit 2 = the implementation's text, read by the
    journal grammar model, is exactly the model's transactions (EquityText_spec.text_reads_as);
@@ -26,17 +30,17 @@ Definition t02_model (ts : list txn) (eqa : acct) (sel : option (list (bool * li
   equity (fun _ => true) eqa (ras_of sel) ts.
 
 Definition t02_case (ts : list txn) (eqa : acct) (sel : option (list (bool * list N)))
-           (md : list (list (list N))) (text : list N) : N :=
+           (md : list (list (list N))) (warn : list (list N)) (text : list N) : N :=
   let dom := if c10_in_domain (txn_bposts ts) then 4%N else 0%N in
   match t02_model ts eqa sel with
   | None => dom
   | Some es =>
-      let m := print_equity md es in
-      ((if t02_text_eqb m text then 1 else 0) + (if text_reads_as (mkCfg 0 0) md es text then 2 else 0) + dom
-       + (if export_wf md es then 8 else 0) + 16 * t02_first_diff m text 0)%N
+      let m := print_equity md warn es in
+      ((if t02_text_eqb m text then 1 else 0) + (if text_reads_as (mkCfg 0 0) md warn es text then 2 else 0) + dom
+       + (if export_wf md warn es then 8 else 0) + 16 * t02_first_diff m text 0)%N
   end.
 
 (* the model text itself (for the replay files) *)
 Definition t02_model_text (ts : list txn) (eqa : acct) (sel : option (list (bool * list N)))
-           (md : list (list (list N))) : list N :=
-  match t02_model ts eqa sel with Some es => print_equity md es | None => [] end.
+           (md : list (list (list N))) (warn : list (list N)) : list N :=
+  match t02_model ts eqa sel with Some es => print_equity md warn es | None => [] end.
